@@ -18,7 +18,7 @@ Import ListNotations.
 Require MayV.Rt.PoisonModel MayV.Rt.PoisonInv MayV.Rt.PoisonPres MayV.Rt.PoisonThm.
 Require MayV.Rt.SchedModel MayV.Rt.SchedInv MayV.Rt.PanicPath MayV.Rt.PanicThm.
 Require MayV.Rt.ScopeModel MayV.Rt.ScopeThm.
-Require MayV.Rt.PoisonTie MayV.Rt.PoolModel MayV.Rt.PoolThm.
+Require MayV.Rt.PoisonTie MayV.Rt.PoolModel MayV.Rt.PoolThm MayV.Rt.PoisonTls.
 Require MayV.Sync.MutexModel MayV.Sync.RwLockModel.
 Module P := MayV.Rt.PoisonModel.
 Module PT := MayV.Rt.PoisonThm.
@@ -31,6 +31,7 @@ Module MX := MayV.Sync.MutexModel.
 Module RW := MayV.Sync.RwLockModel.
 Module PL := MayV.Rt.PoolModel.
 Module PLT := MayV.Rt.PoolThm.
+Module TLS := MayV.Rt.PoisonTls.
 
 (* ======================================================================================================== *)
 (* (i) poisoning                                                                                            *)
@@ -377,6 +378,45 @@ Theorem C13_iii_scope_owner_reraises_the_childs_panic :
   SC.outm s (SC.jcm s a) = SC.OPanic p -> SC.step SC.current s (SC.Step a) = Some s' -> SC.unwm s' a = SC.UPanic p.
 Proof. exact MayV.Rt.ScopeThm.child_panic_reraised. Qed.
 Print Assumptions C13_iii_scope_owner_reraises_the_childs_panic.
+
+
+(* ======================================================================================================== *)
+(* observation O2: REFUTED on the TLS-faithful variant (Rt/PoisonTls.v) and on the real runtime                  *)
+(* ======================================================================================================== *)
+
+(* std::thread::panicking() counts per OS thread.  A coroutine that is suspended INSIDE its unwinding (the runtime does
+   that itself: RwLockReadGuard::drop waits for the reader-count mutex, Park::drop for the kernel half, Drop for Scope /
+   Cqueue for children) may be resumed by another thread, and meanwhile its thread runs other coroutines.  Potential
+   defects of `may`, each replayed on the real code (see props/C13.json, assumptions):
+
+   a panic that started inside a Mutex guard does NOT poison when the coroutine was resumed by another thread while it
+   unwinds; the counters of both threads stay wrong (1 and -1) *)
+Theorem C13_tls_poison_lost_after_migration_refuted :
+  exists s, TLS.TReach s /\
+    TLS.trun TLS.tinit [TLS.TLock 0 0; TLS.TPanic 0 7; TLS.TMigrate 0 1; TLS.TDrop 0 0; TLS.TCaught 0] = Some s /\
+    TLS.tfailed s 0 = false /\ TLS.towner s 0 = None /\ TLS.tunw (TLS.TT s 0) = None /\
+    TLS.pcnt s 0 = 1%Z /\ TLS.pcnt s 1 = (-1)%Z.
+Proof. exact TLS.lost_poison_after_migration_refuted. Qed.
+Print Assumptions C13_tls_poison_lost_after_migration_refuted.
+
+(* on ONE thread: a well-behaved coroutine that drops its Mutex guard normally POISONS the Mutex while another coroutine
+   is suspended inside a cancellation unwind *)
+Theorem C13_tls_spurious_poison_on_one_thread_refuted :
+  exists s, TLS.TReach s /\
+    TLS.trun TLS.tinit [TLS.TLock 1 0; TLS.TCancelReq 0; TLS.TCancelPoint 0; TLS.TDrop 1 0] = Some s /\
+    TLS.tfailed s 0 = true /\ TLS.tunw (TLS.TT s 1) = None /\ TLS.tcst (TLS.TT s 1) = 0%Z /\
+    TLS.thr (TLS.TT s 0) = TLS.thr (TLS.TT s 1).
+Proof. exact TLS.spurious_poison_on_one_thread_refuted. Qed.
+Print Assumptions C13_tls_spurious_poison_on_one_thread_refuted.
+
+(* on ONE thread: the cancellation of an unrelated coroutine is suppressed while another one is suspended inside its
+   unwinding (check_cancel: `if !thread::panicking()`); a `loop { yield_now() }` then never leaves the worker *)
+Theorem C13_tls_cancel_suppressed_refuted :
+  exists s, TLS.TReach s /\ TLS.trun TLS.tinit [TLS.TPanic 0 7; TLS.TCancelReq 1] = Some s /\
+            P.is_canceled (TLS.tcst (TLS.TT s 1)) = true /\
+            forall n, TLS.trun s (repeat (TLS.TCancelPoint 1) n) = Some s.
+Proof. exact TLS.cancel_suppressed_refuted. Qed.
+Print Assumptions C13_tls_cancel_suppressed_refuted.
 
 (* ======================================================================================================== *)
 (* non-vacuity                                                                                               *)
